@@ -311,6 +311,9 @@ func isLenOf(v ssa.Value, sameSlice func(v ssa.Value) bool) bool {
 }
 
 func checkC15(p *Program, r *Report) {
+	// round 6 (systematic): no unguarded mutable package-level state behind this property's functions (§2.9)
+	sharedStateRule(p, r, NewEffects(p), "C15.shared", []string{"hdkeychain/extendedkey.go"})
+	r.Floor("C15.shared", 0)
 	r.Explain = "Frame argument over all histories of ExtendedKey operations: (C15.fields) every []byte field is either zeroed in place by Zero (Z) " +
 		"or never written element-wise anywhere (S); (C15.fresh) no store ever puts into a Z-field of one key a slice that aliases a Z-buffer of " +
 		"another key or a package-level variable; (C15.frame) only Zero writes the bytes of Z-buffers and methods write nothing but their receiver's " +
